@@ -351,6 +351,20 @@ return violations""")
     return _s("sc_rule_id", rid) + defn("sc_message", "list (string * string)", coq_list(parts))
 
 
+def concat_doc_names():
+    """docs/performance-linter.md documents which variable NAMES make a `+=` count as string concatenation
+    (`- Variables named: result, output, ...`); the specification side of the name table"""
+    from translator.lib import source
+    text = source("docs/performance-linter.md")
+    hits = re.findall(r"^- Variables named:\s*(.+)$", text, re.M)
+    if len(hits) != 1:
+        raise Unsupported(f"docs/performance-linter.md: {len(hits)} `Variables named:` lines")
+    names = [x.strip().strip("`") for x in hits[0].split(",")]
+    if not names or not all(re.fullmatch(r"[a-z_][a-z0-9_]*", x) for x in names):
+        raise Unsupported(f"documented variable names not understood: {hits[0]!r}")
+    return defn("sc_doc_patterns", "list string", coq_str_list(names))
+
+
 ITEMS = [
     ("print_call", print_call),
     ("main_block", main_block),
@@ -360,4 +374,5 @@ ITEMS = [
     ("concat_walk", concat_walk),
     ("concat_emit", concat_emit),
     ("concat_report", concat_report),
+    ("concat_doc_names", concat_doc_names),
 ]
